@@ -1,4 +1,21 @@
 //! C04 — Messages reach exactly the transaction RFC 3261 sec. 17 matching prescribes
+//!
+//! Generated: timed histories of peer requests (2 RFC 3261 branches, a cookie-less branch, no branch, the branch
+//! of ezk's own client transactions; 6 methods; Call-ID / From-tag / CSeq / sent-by each equal or different;
+//! Request-Line method equal to or different from the CSeq method), application answers (provisional / 2xx /
+//! failure), application sends and peer responses (branch and CSeq method each equal or different), over a
+//! reliable or unreliable transport whose writes return at once or take SLOW_MS of virtual time. Everything
+//! the application does that writes to the transport (final and provisional answers, send_request /
+//! send_invite) runs in a task of its own, so the following messages of the history arrive WHILE that write
+//! is in progress (a response can reach the endpoint before send_request has returned).
+//! Oracle: symbolic reference model of RFC 3261 17.1.3 / 17.2.3 (identifier equality only) that predicts which
+//! requests the layers are shown, in which order, and which responses each client transaction's receive()
+//! yields.
+//! Not asserted: arrivals on a transaction's end-of-life edge (see `assumptions`); whether a request whose
+//! Request-Line method differs from its CSeq method is ITSELF shown to the layers or absorbed (RFC 3261 matches
+//! on the request method, ezk keys on the CSeq method, the statement is silent) — asserted is only that such a
+//! message (never with an ACK line) neither starts nor ends a transaction, i.e. every well-formed message
+//! after it is treated as if it had not arrived; what goes on the wire (retransmitted responses).
 
 use super::c05::Res;
 use super::c06::ChannelLayer;
@@ -36,6 +53,26 @@ pub struct ReqEv {
     pub from_tag: u8,
     pub cseq: u8,
     pub sent_by: u8,
+    /// 0: the Request-Line method is the CSeq method (`method`); k > 0: the Request-Line carries another,
+    /// non-ACK method (`line_method`) while CSeq still says `method` — a "mismatched" request
+    #[serde(default)]
+    pub line: u8,
+}
+
+/// Request-Line methods of mismatched requests (never ACK: an ACK line can legitimately end an INVITE transaction)
+const LINE_METHODS: &[&str] = &["OPTIONS", "BYE", "CANCEL", "PRACK", "INVITE", "INFO"];
+
+/// Request-Line method of a mismatched request: the k-th of LINE_METHODS, stepping over the CSeq method
+fn line_method(r: &ReqEv) -> Option<&'static str> {
+    if r.line == 0 {
+        return None;
+    }
+    let cseq_method = SERVER_METHODS[r.method as usize % SERVER_METHODS.len()];
+    let mut idx = (r.line as usize - 1) % LINE_METHODS.len();
+    if LINE_METHODS[idx] == cseq_method {
+        idx = (idx + 1) % LINE_METHODS.len();
+    }
+    Some(LINE_METHODS[idx])
 }
 
 #[derive(Serialize, Deserialize, Clone, Debug, Hash)]
@@ -62,6 +99,9 @@ pub struct Case {
     pub rng: u8,
 }
 
+/// duration of every write on a slow transport
+const SLOW_MS: u64 = 2;
+
 const GAPS: &[u64] = &[1, 1, 7, 100, 501, T4 - 4, T4 + 4, 31_996, 32_004, 31_996, 32_004, TIMEOUT + T2 + 20];
 
 pub fn strategy() -> BoxedStrategy<Case> {
@@ -76,9 +116,11 @@ pub fn strategy() -> BoxedStrategy<Case> {
         prop_oneof![4 => Just(0u8), 1 => Just(1u8)],
         prop_oneof![4 => Just(0u8), 1 => Just(1u8)],
         prop_oneof![4 => Just(0u8), 1 => Just(1u8)],
+        // Request-Line method differs from the CSeq method
+        prop_oneof![7 => Just(0u8), 1 => 1u8..7],
     )
-        .prop_map(|(branch, method, call_id, from_tag, cseq, sent_by)| {
-            Ev::Req(ReqEv { branch, method, call_id, from_tag, cseq, sent_by })
+        .prop_map(|(branch, method, call_id, from_tag, cseq, sent_by, line)| {
+            Ev::Req(ReqEv { branch, method, call_id, from_tag, cseq, sent_by, line })
         });
     let ev = prop_oneof![
         6 => req,
@@ -119,9 +161,19 @@ pub fn lifecycle_strategy() -> BoxedStrategy<Case> {
         prop_oneof![3 => Just(None), 1 => Just(Some(501u64)), 1 => Just(Some(10_000u64)), 1 => Just(Some(20_000u64)), 1 => Just(Some(31_000u64))],
         // a burst of identical copies while the application still holds the request unanswered
         prop_oneof![6 => Just(0u8), 1 => Just(3u8), 1 => Just(34u8), 1 => Just(70u8)],
+        // a mismatched request (Request-Line method != CSeq method, all identifiers of the base request) that
+        // arrives while the application still holds the base request (false) or after it answered (true);
+        // for an INVITE the CSeq method is INVITE or ACK (both are keyed onto the INVITE transaction)
+        prop_oneof![
+            3 => Just(None),
+            2 => (1u8..7, any::<bool>(), any::<bool>(), prop_oneof![Just(1u64), Just(40u64)]).prop_map(Some),
+        ],
     )
-        .prop_map(|(reliable, (b, m, kind, g1), g2, (vary, ack), (cm, code, g3), g4, (rb, rc, code2), rng, mid, flood)| {
-            let base = ReqEv { branch: BranchSym::Peer(b), method: m, call_id: 0, from_tag: 0, cseq: 0, sent_by: 0 };
+        .prop_map(|(reliable, (b, m, kind, g1), g2, (vary, ack), (cm, code, g3), g4, (rb, rc, code2), rng, mid, flood, probe)| {
+            let base = ReqEv { branch: BranchSym::Peer(b), method: m, call_id: 0, from_tag: 0, cseq: 0, sent_by: 0, line: 0 };
+            let probe_ev = |line: u8, as_ack: bool| {
+                Ev::Req(ReqEv { line, method: if m == 0 && as_ack { 4 } else { m }, ..base.clone() })
+            };
             let mut copy = base.clone();
             match vary {
                 1 => copy.call_id = 1,
@@ -135,8 +187,19 @@ pub fn lifecycle_strategy() -> BoxedStrategy<Case> {
             for _ in 0..flood {
                 events.push((1, Ev::Req(base.clone())));
             }
+            let mut g1 = g1;
+            if let Some((line, as_ack, false, pg)) = probe {
+                if pg < g1 {
+                    events.push((pg, probe_ev(line, as_ack)));
+                    g1 -= pg;
+                }
+            }
             events.push((g1, Ev::Answer { sel: 0, kind }));
             let mut g2 = g2;
+            if let Some((line, as_ack, true, pg)) = probe {
+                events.push((pg, probe_ev(line, as_ack)));
+                g2 -= pg;
+            }
             if let Some(mg) = mid.filter(|mg| *mg + 10 < g2 && !(ack && m == 0)) {
                 events.push((mg, Ev::Req(base.clone())));
                 g2 -= mg;
@@ -236,6 +299,11 @@ pub struct Prediction {
     pub cutoff: Option<u64>,
     pub near_miss: bool,
     pub near_edge: bool,
+    /// a mismatched request (Request-Line method != CSeq method) met a live server transaction that has its
+    /// branch (or RFC 2543 identifiers) and the folded CSeq or Request-Line method
+    pub probe_hit: bool,
+    /// a response arrived while the write of the request it answers was still in progress
+    pub resp_during_send: bool,
 }
 
 fn near(t: u64, edge: u64) -> bool {
@@ -254,6 +322,8 @@ pub fn predict(case: &Case) -> Prediction {
     ];
     let mut near_miss = false;
     let mut near_edge = false;
+    let mut probe_hit = false;
+    let mut resp_during_send = false;
     let mut seen_keys: Vec<RefKey> = vec![];
     let mut t = 0u64;
 
@@ -273,6 +343,34 @@ pub fn predict(case: &Case) -> Prediction {
                     b => b,
                 };
                 let r = ReqEv { branch, ..r.clone() };
+                if let Some(line) = line_method(&r) {
+                    // Mismatched request. RFC 3261 17.2.3 matches on the request method, ezk keys on the CSeq
+                    // method; the statement does not say which, so whether this message itself is shown to the
+                    // layers is not asserted. Under either reading it is neither a retransmission that changes
+                    // a transaction's state nor an ACK (the line method is never ACK), and the application
+                    // drops it at once when it is shown: no transaction starts or ends because of it.
+                    let keys: Vec<RefKey> = [fold(method), fold(line)]
+                        .into_iter()
+                        .map(|m| match branch {
+                            BranchSym::Peer(p) if p >= 2 => {
+                                RefKey::Old { method: m, cseq: r.cseq, from_tag: r.from_tag, call_id: r.call_id, sent_by: r.sent_by }
+                            }
+                            b => RefKey::New(b, m),
+                        })
+                        .collect();
+                    if stsx.iter().any(|s| {
+                        keys.contains(&s.key)
+                            && match &s.state {
+                                SState::Pending { .. } | SState::Accepted => true,
+                                SState::Answered { until } => t + 3 < *until,
+                                SState::InvFailed { at } => t + 3 < at + TIMEOUT,
+                            }
+                    }) {
+                        probe_hit = true;
+                    }
+                    script.push((t, Act::Req { marker: format!("p{i}"), ev: r }));
+                    continue;
+                }
                 let key = match branch {
                     BranchSym::Peer(p) if p >= 2 => RefKey::Old {
                         method: fold(method),
@@ -479,6 +577,9 @@ pub fn predict(case: &Case) -> Prediction {
                         cutoff = Some(t);
                         break;
                     }
+                    if case.slow_send && s.state == CState::Init && t < s.sent_at + SLOW_MS {
+                        resp_during_send = true;
+                    }
                     match s.state.clone() {
                         CState::Init | CState::Proceeding => {
                             slot_results[b].push((marker.clone(), false));
@@ -502,7 +603,7 @@ pub fn predict(case: &Case) -> Prediction {
             }
         }
     }
-    Prediction { script, surfaced, slot_results, cutoff, near_miss, near_edge }
+    Prediction { script, surfaced, slot_results, cutoff, near_miss, near_edge, probe_hit, resp_during_send }
 }
 
 fn one_component_differs(a: &RefKey, b: &RefKey) -> bool {
@@ -545,7 +646,7 @@ fn req_bytes(marker: &str, r: &ReqEv, client_branches: &[Option<String>; 2]) -> 
         ),
     };
     request_text(
-        method,
+        line_method(r).unwrap_or(method),
         "sip:uas@10.0.0.1",
         &[via],
         &format!("<sip:peer@192.0.2.9>;tag=ft{}", r.from_tag),
@@ -565,7 +666,7 @@ pub fn run(case: &Case, pred: &Prediction) -> Observed {
     let script = pred.script.clone();
     run_world(rng, |clock| async move {
         let log = WireLog::new(clock);
-        let (tp, _) = mock_datagram_slow(&log, "UDP", false, reliable, "10.0.0.1:5060", if slow { 2 } else { 0 });
+        let (tp, _) = mock_datagram_slow(&log, "UDP", false, reliable, "10.0.0.1:5060", if slow { SLOW_MS } else { 0 });
         let rec = Recorder::new(clock);
         let (tx, mut rx) = mpsc::unbounded_channel();
         let mut b = offline_builder();
@@ -573,7 +674,8 @@ pub fn run(case: &Case, pred: &Prediction) -> Observed {
         let endpoint = b.build();
         let peer: SocketAddr = "192.0.2.9:5060".parse().unwrap();
         let mut pending: HashMap<String, IncomingRequest> = HashMap::new();
-        let mut provisional: HashMap<String, Held> = HashMap::new();
+        // requests answered provisionally: the task that writes the provisional response hands the transaction back
+        let mut provisional: HashMap<String, tokio::task::JoinHandle<Held>> = HashMap::new();
         let mut problems = vec![];
         let slot_results: [Arc<Mutex<Vec<(u64, Res)>>>; 2] = [Default::default(), Default::default()];
         let mut slot_req: [Option<WireMsg>; 2] = [None, None];
@@ -582,15 +684,16 @@ pub fn run(case: &Case, pred: &Prediction) -> Observed {
         macro_rules! drain {
             () => {
                 while let Ok(r) = rx.try_recv() {
-                    if r.line.method == Method::ACK {
+                    let marker = r
+                        .headers
+                        .iter()
+                        .find(|(n, _)| n.as_print_str().eq_ignore_ascii_case("x-seq"))
+                        .map(|(_, v)| v.to_string())
+                        .unwrap_or_default();
+                    if r.line.method == Method::ACK || marker.starts_with('p') {
+                        // ACKs and mismatched requests are dropped at once (with the registration they carry)
                         drop(r);
                     } else {
-                        let marker = r
-                            .headers
-                            .iter()
-                            .find(|(n, _)| n.as_print_str().eq_ignore_ascii_case("x-seq"))
-                            .map(|(_, v)| v.to_string())
-                            .unwrap_or_default();
                         pending.insert(marker, r);
                     }
                 }
@@ -609,7 +712,11 @@ pub fn run(case: &Case, pred: &Prediction) -> Observed {
                     drain!();
                     let held = match pending.remove(&marker) {
                         Some(req) => Some(Held::Fresh(req)),
-                        None => provisional.remove(&marker),
+                        None => match provisional.remove(&marker) {
+                            // (waits when the provisional response is still being written on a slow transport)
+                            Some(h) => h.await.ok(),
+                            None => None,
+                        },
                     };
                     match held {
                         None => problems.push(format!("application wanted to answer {marker} at {t} ms but never received it")),
@@ -629,19 +736,24 @@ pub fn run(case: &Case, pred: &Prediction) -> Observed {
                                 h => h,
                             };
                             if kind == 0 {
-                                match held {
-                                    Held::Inv(mut tsx, req) => {
-                                        let mut r = endpoint.create_response(&req, Code::from(180), None);
-                                        let _ = tsx.respond_provisional(&mut r).await;
-                                        provisional.insert(marker, Held::Inv(tsx, req));
+                                // written by a task of its own: on a slow transport the next events of the
+                                // history arrive while the provisional response is still being written
+                                let h = tokio::spawn(async move {
+                                    match held {
+                                        Held::Inv(mut tsx, req) => {
+                                            let mut r = endpoint.create_response(&req, Code::from(180), None);
+                                            let _ = tsx.respond_provisional(&mut r).await;
+                                            Held::Inv(tsx, req)
+                                        }
+                                        Held::NonInv(mut tsx, req) => {
+                                            let mut r = endpoint.create_response(&req, Code::from(180), None);
+                                            let _ = tsx.respond_provisional(&mut r).await;
+                                            Held::NonInv(tsx, req)
+                                        }
+                                        Held::Fresh(_) => unreachable!(),
                                     }
-                                    Held::NonInv(mut tsx, req) => {
-                                        let mut r = endpoint.create_response(&req, Code::from(180), None);
-                                        let _ = tsx.respond_provisional(&mut r).await;
-                                        provisional.insert(marker, Held::NonInv(tsx, req));
-                                    }
-                                    Held::Fresh(_) => unreachable!(),
-                                }
+                                });
+                                provisional.insert(marker, h);
                             } else {
                                 let code = if kind == 1 { 200 } else { 486 };
                                 tokio::spawn(async move {
@@ -687,9 +799,13 @@ pub fn run(case: &Case, pred: &Prediction) -> Observed {
                             .map(|(_, v)| v.to_string())
                             .unwrap_or_default()
                     };
-                    if method == "INVITE" {
-                        if let Ok(mut tsx) = endpoint.send_invite(request, &mut target).await {
-                            tokio::spawn(async move {
+                    // the application sends from a task of its own: on a slow transport `send_request` /
+                    // `send_invite` return only when the write is over, the peer's response (next events of
+                    // the history) can arrive before that
+                    let endpoint = endpoint.clone();
+                    tokio::spawn(async move {
+                        if method == "INVITE" {
+                            if let Ok(mut tsx) = endpoint.send_invite(request, &mut target).await {
                                 loop {
                                     match tsx.receive().await {
                                         Ok(Some(r)) => results.lock().push((clock.now_ms(), Res::Resp(r.line.code.into_u16(), marker_of(&r)))),
@@ -697,10 +813,8 @@ pub fn run(case: &Case, pred: &Prediction) -> Observed {
                                         Err(_) => break,
                                     }
                                 }
-                            });
-                        }
-                    } else if let Ok(mut tsx) = endpoint.send_request(request, &mut target).await {
-                        tokio::spawn(async move {
+                            }
+                        } else if let Ok(mut tsx) = endpoint.send_request(request, &mut target).await {
                             loop {
                                 match tsx.receive().await {
                                     Ok(r) => {
@@ -713,14 +827,21 @@ pub fn run(case: &Case, pred: &Prediction) -> Observed {
                                     Err(_) => break,
                                 }
                             }
-                        });
-                    }
-                    settle().await;
-                    if let Some(sent) = log.snapshot().get(before) {
-                        if let Some(m) = WireMsg::parse(&sent.bytes) {
-                            client_branches[s] = m.via_branch();
-                            slot_req[s] = Some(m);
                         }
+                    });
+                    settle().await;
+                    // the request is on the wire (the write may still be in progress); other tasks may have
+                    // written in the same instant, so it is picked by its Call-ID
+                    let own_call_id = format!("c04-client-{s}");
+                    if let Some(m) = log
+                        .snapshot()
+                        .iter()
+                        .skip(before)
+                        .filter_map(|sent| WireMsg::parse(&sent.bytes))
+                        .find(|m| m.is_request() && m.call_id() == Some(own_call_id.as_str()))
+                    {
+                        client_branches[s] = m.via_branch();
+                        slot_req[s] = Some(m);
                     }
                 }
                 Act::Resp { marker, slot, branch, cseq_method, code } => {
@@ -795,9 +916,18 @@ pub fn check(case: &Case, out: &mut CaseOut) {
     if case.events.iter().any(|(_, e)| matches!(e, Ev::Req(r) if SERVER_METHODS[r.method as usize % 6] == "CANCEL")) {
         out.class("cancel");
     }
-    if pred.near_miss || pred.near_edge {
+    if case.events.iter().any(|(_, e)| matches!(e, Ev::Req(r) if r.line != 0)) {
+        out.class("request-line-method-differs-from-cseq-method");
+    }
+    if pred.probe_hit {
+        out.class("mismatched-request-meets-live-transaction");
+    }
+    if pred.resp_during_send {
+        out.class("response-while-request-write-in-progress");
+    }
+    if pred.near_miss || pred.near_edge || pred.probe_hit || pred.resp_during_send {
         // distinct by the normalised event sequence
-        out.nontrivial(&(case.reliable, &case.events));
+        out.nontrivial(&(case.reliable, case.slow_send && pred.resp_during_send, &case.events));
     }
 
     // judged by the instant the message ARRIVED (slow writes can delay when it surfaces)
@@ -814,6 +944,8 @@ pub fn check(case: &Case, out: &mut CaseOut) {
         .seen
         .iter()
         .map(|s| s.marker.clone().unwrap_or_default())
+        // whether a mismatched request ("p..") itself is shown is not asserted
+        .filter(|m| !m.starts_with('p'))
         .filter(|m| arrived_before_cutoff(m))
         .collect();
     out.note = Some(format!(
@@ -879,11 +1011,19 @@ pub fn check(case: &Case, out: &mut CaseOut) {
             bad = true;
         }
         if bad {
-            let unexpected = got.iter().any(|g| !want.iter().any(|(m, _)| m == g));
-            out.fail(
-                if unexpected { "c04.client/delivered-to-wrong-transaction" } else { "c04.client/response-not-delivered" },
-                format!("client slot {s}: receive() yielded {got:?}, reference predicts {want:?}"),
-            );
+            // named after the earliest message that went wrong: a predicted response that never came out of
+            // receive(), or one that came out although the reference model does not address it to this
+            // transaction (or addresses it to a transaction that is already over)
+            let idx = |m: &String| m.get(1..).and_then(|i| i.parse::<usize>().ok()).unwrap_or(usize::MAX);
+            let first_missing = want.iter().filter(|(m, opt)| !*opt && !got.contains(m)).map(|(m, _)| idx(m)).min();
+            let first_unexpected = got.iter().filter(|g| !want.iter().any(|(m, _)| m == *g)).map(idx).min();
+            let sig = match (first_missing, first_unexpected) {
+                (Some(m), Some(u)) if u < m => "c04.client/delivered-to-wrong-transaction",
+                (None, Some(_)) => "c04.client/delivered-to-wrong-transaction",
+                (Some(_), _) => "c04.client/response-not-delivered",
+                (None, None) => "c04.client/response-order",
+            };
+            out.fail(sig, format!("client slot {s}: receive() yielded {got:?}, reference predicts {want:?}"));
         }
     }
 }
@@ -892,11 +1032,13 @@ pub fn property() -> Property {
     Property {
         fuzz: vec![],
         id: "C04",
-        rule: "a case = history of 3..12 timed events over a deliberately small alphabet (2 RFC 3261 branches, a cookie-less branch, no branch, the branches of ezk's own client transactions; methods INVITE/OPTIONS/BYE/CANCEL/ACK/PRACK; 2 Call-IDs, From-tags, CSeq numbers, sent-by values): peer requests, application answers (provisional / 2xx / failure) to held requests, application sends, peer responses whose branch and CSeq method are each equal or different; gaps from a grid bracketing T4, 64*T1 and the INVITE timeout window. A symbolic RFC 3261 17.1.3/17.2.3 reference model predicts for every message: absorbed / shown to layers / delivered to client transaction X / dropped. Non-trivial = two keys differing in exactly one component, a response with foreign branch or CSeq method, or an arrival within 5 ms of a transaction's end; distinct by the event sequence.",
+        rule: "a case = history of 3..12 timed events over a deliberately small alphabet (2 RFC 3261 branches, a cookie-less branch, no branch, the branches of ezk's own client transactions; methods INVITE/OPTIONS/BYE/CANCEL/ACK/PRACK; 2 Call-IDs, From-tags, CSeq numbers, sent-by values; about 1 request in 8 carries a non-ACK Request-Line method that differs from its CSeq method): peer requests, application answers (provisional / 2xx / failure) to held requests, application sends, peer responses whose branch and CSeq method are each equal or different; gaps from a grid bracketing T4, 64*T1 and the INVITE timeout window; in a third to a half of the cases every transport write takes 2 ms and all application writes (answers, send_request/send_invite) run in their own task, so 1 ms gaps put the next message inside a write that has not returned yet (response before send_request returns, copy while a provisional/final answer is written). The lifecycle sub builds request / answer / copy-around-end-of-life histories, optionally with a flood of copies, a mid-life copy, and a mismatched request (line method != CSeq method, CSeq method of the base request or ACK for an INVITE) before or after the answer. A symbolic RFC 3261 17.1.3/17.2.3 reference model predicts for every message: absorbed / shown to layers / delivered to client transaction X / dropped. Non-trivial = two keys differing in exactly one component, a response with foreign branch or CSeq method, an arrival within 5 ms of a transaction's end, a mismatched request meeting a live server transaction with its branch/identifiers, or a response arriving while the write of its request is in progress; distinct by the event sequence.",
         assumptions: vec![
             "arrivals within 3 ms of a transaction's end, inside the INVITE-failure timeout window [64*T1, 64*T1+T2], and the non-INVITE Proceeding timeout are don't-cares: the comparison stops there",
             "the application holds every request it is shown until it answers it, and drops ACKs at once",
             "sent-by is not varied for RFC 3261 branches (statement silent)",
+            "a request whose Request-Line method differs from its CSeq method never carries an ACK line, is dropped by the application at once when shown, and whether it is shown at all is not asserted; it must leave every transaction as it was",
+            "a message injected in the same millisecond in which a slow write ends is a tie whose order is fixed by the run-time; nothing is asserted that depends on that order",
         ],
         explanation: "sampled histories; reference model is symbolic (identifier equality only)",
         subs: vec![
